@@ -14,6 +14,7 @@ from .. import core, lib, exact as X, alphabet as A
 from ..core import Viol, Family
 from ..icheck import eval_inter, model_inter
 
+EXTRA_HASHSEEDS = (1,)       # thorough tier re-runs the quick space under a second pinned hash seed
 LEVEL = 'exploration'
 TECHNIQUE = 'bounded-exhaustive enumeration of feature-anchored flats x catalogue bodies x poses on the real code vs exact clipping / vertex enumeration'
 
